@@ -426,7 +426,7 @@ def obligations(tier):
             h = Climber(algo=algo, n=4, k=2, constrained="fixed", w=w, cap=cap)
             h.weight = 300
             obs.append(h)
-        for n, k, con in ([(3, 2, False), (4, 2, False), (3, 2, True)] if tier == "quick" else [(3, 2, False), (4, 2, False), (3, 2, True), (4, 3, False)] + ([(4, 2, True)] if algo == "steepest" else [])):
+        for n, k, con in ([(3, 2, False), (4, 2, False), (3, 2, True)] if tier == "quick" else [(3, 2, False), (4, 2, False), (3, 2, True), (4, 3, False)]):       # (4, 2, constrained) needs ~25 min per climber: outside the thorough budget
             h = Climber(algo=algo, n=n, k=k, constrained=con)
             h.weight = 100 * n ** 2
             h.budget_s = 1500
